@@ -226,7 +226,7 @@ func genScriptSCION(r *lib.Rng) []recipe {
 	}
 	// kinds that make no sense over SCION (receive buffer of 9188 bytes)
 	for i := range s {
-		if s[i].kind == 9 {
+		if s[i].kind == 9 || s[i].kind == 21 {
 			s[i] = recipe{kind: 5, p1: 4}
 		}
 	}
